@@ -778,12 +778,68 @@ theorem C04_iis_total_partial (es : List Entry) (S : St)
 example : (runFrom exampleGraph ⟨fun _ => 0⟩ ⟨.post, .iis, [(4, [0, 0, 3]), (5, [2])]⟩).map (fun S => readNode S 1 1) = some [1] := by decide
 
 
+
+/-! ## Node registration and clean-up, tied to the source (`gen_valcvt.py`: constructors / destructor / `Register` / `Deregister` /
+`CleanUpValueNodes` / `CleanUpAndRealloc`) -/
+
+open MpVerif.Gen in
+/-- EVERY `ValueNode` constructor (plain, move, copy — an implicit or defaulted one makes the translator fail) puts the node into
+    `val_nodes_`, and only the destructor takes it out. -/
+theorem C04_gen_ctors_register (reg : List Nat) (id n : Nat) :
+    (n ∈ execRegOps ValCvt.ctorPlain reg id ↔ n = id ∨ n ∈ reg) ∧
+    (n ∈ execRegOps ValCvt.ctorMove reg id ↔ n = id ∨ n ∈ reg) ∧
+    (n ∈ execRegOps ValCvt.ctorCopy reg id ↔ n = id ∨ n ∈ reg) ∧
+    (n ∈ execRegOps ValCvt.dtor reg id ↔ n ∈ reg ∧ n ≠ id) := by
+  have hins : n ∈ execRegOps [.insert] reg id ↔ n = id ∨ n ∈ reg := by
+    simp only [execRegOps]
+    by_cases h : id ∈ reg
+    · simp only [h, if_true]
+      constructor
+      · exact Or.inr
+      · rintro (h1 | h1)
+        · rw [h1]; exact h
+        · exact h1
+    · simp [h]
+  refine ⟨hins, hins, hins, ?_⟩
+  simp [ValCvt.dtor, execRegOps]
+
+/-- the registered set after the `k` constructor calls that create nodes `0 … k-1` (nodes live as long as the presolver) -/
+def regAfter : Nat → List Nat
+  | 0 => []
+  | k + 1 => execRegOps MpVerif.Gen.ValCvt.ctorPlain (regAfter k) k
+
+/-- … is exactly the model's `Graph.registered` (the indices of `Graph.sizes`) -/
+theorem C04_gen_registered_is_ctor_set (g : Graph) (n : Nat) : g.registered n = true ↔ n ∈ regAfter g.sizes.length := by
+  have h : ∀ k, n ∈ regAfter k ↔ n < k := by
+    intro k
+    induction k with
+    | zero => simp [regAfter]
+    | succ k ih =>
+      simp only [regAfter]
+      rw [(C04_gen_ctors_register (regAfter k) k n).1, ih]
+      omega
+  simp [Graph.registered, h]
+
+open MpVerif.Gen in
+/-- `CleanUpValueNodes` runs over `val_nodes_` and `CleanUpAndRealloc` leaves both numeric arrays all-zero with the declared length; every
+    other node's memory is untouched — the model's `cleanReg`. -/
+theorem C04_gen_cleanup_zeroes_registered (reg : List Nat) (size : Nat → Nat) (mem : Nat → NodeArrays) (n : Nat) :
+    execClean ValCvt.cleanUpValueNodes reg size mem n =
+      (if n ∈ reg then ⟨List.replicate (size n) 0, List.replicate (size n) 0⟩ else mem n) ∧
+    ValCvt.cleanUpValueNodes.over = "val_nodes_" := by
+  refine ⟨?_, by decide⟩
+  unfold execClean
+  by_cases h : n ∈ reg
+  · simp [h, ValCvt.cleanUpValueNodes, execNodeOps, resizeList]
+  · simp [h]
+
 /-! ## History independence as a RESULT: `CleanUpValueNodes` zeroes only the registered nodes (`Registered.lean`)
 
 `runFromReg` cleans exactly the registered value nodes (the indices of `Graph.sizes` = the `val_nodes_` dump of the real presolver) and
 leaves every other cell as the previous calls left it.  That the result does not depend on those leftovers needs that every node a
-link entry touches is registered — `Graph.nodesRegistered`, checked on every real graph (`wf2`) and proved for every graph the
-constructors can build (`C04_built_nodes_registered`).  `runFrom` (used by the theorems above) is `runFromReg` on an all-zero memory. -/
+link entry touches is registered — `Graph.nodesRegistered`, checked on every real graph (`wf2`, and by pointer in the recording driver).
+(`C04_built_nodes_registered` states it for the hand-written Builder model, whose ops presuppose that the nodes exist: documentation of the
+invariant, not evidence about the code.)  `runFrom` (used by the theorems above) is `runFromReg` on an all-zero memory. -/
 
 /-- the nodes a call's result lives on: the registered ones and those named in the call's argument -/
 def callNodes (g : Graph) (c : Call) (n : Nat) : Bool := g.registered n || (c.inputs.lookup n).isSome
@@ -876,12 +932,31 @@ theorem C04_built_nodes_registered (isDest : Nat → Bool) (ops : List BOp) (st 
 
 /-- … and a postsolve trace certificate EXISTS for every cell whose history does not pass through a Many2Many-family entry (for those,
     max-among-non-zero applies: `C04_shared_postsolve_reaches`): in particular for every original variable and every constraint converted
-    by 1:1 steps and `RangeCon2Slack`.  The per-run computation of `tracePost` on the real graph is therefore a tie of this model to
-    the code, not a hypothesis of the theorems. -/
+    by 1:1 steps and `RangeCon2Slack`.  Existence of SOME origin only; which one: `C04_built_deliver_origin`. -/
 theorem C04_built_certificates_exist (isDest : Nat → Bool) (ops : List BOp) (st : BState)
     (h : build isDest ops ⟨[], [], []⟩ = some st) (k : Kind) (c : Cell) (hm : hitsM2M st.entries c = false) :
     ∃ o, tracePost k (fun c => !isDest c.1) st.entries c = some o :=
   tracePost_exists k _ st.entries c (Inv.build ops (Inv.empty isDest) h).wf hm
+
+/-- … and for the items the converters hand to the solver the certificate is not just some origin but THE slot: when
+    `AddAllUnbridged` delivers item `c` to target node `dn` (declared size `slot` at that moment), then after every continuation of the
+    construction the postsolve origin of `c` — for every value kind — is solver item `(dn, slot)`. -/
+theorem C04_built_deliver_origin (isDest : Nat → Bool) (ops0 ops1 : List BOp) (st0 st1 st2 : BState) (c : Cell) (dn : Nat) (k : Kind)
+    (h0 : build isDest ops0 ⟨[], [], []⟩ = some st0) (h1 : st0.apply isDest (.deliver c dn) = some st1)
+    (h2 : build isDest ops1 st1 = some st2) :
+    tracePost k (fun c => !isDest c.1) st2.entries c = some (.init (dn, st0.size dn)) :=
+  deliver_origin isDest ops0 ops1 st0 st1 st2 c dn k h0 h1 h2
+
+open MpVerif.Gen in
+/-- the Builder's `newItem` sizes a node exactly as the translated `ValueNode::Add` does -/
+theorem C04_gen_builder_newItem_is_nodeAdd (isDest : Nat → Bool) (st : BState) (node n : Nat) (hn : node < st.sizes.length) :
+    ∃ sizes', BOp.effect isDest st (.newItem node n) = some (sizes', [], []) ∧
+      ((sizes'.getD node 0 : Nat) : Int) = (ValCvt.nodeAdd (st.size node) n).2 := by
+  refine ⟨growTo st.sizes node (st.size node + n), by simp [BOp.effect, hn], ?_⟩
+  rw [growTo_getD]
+  simp only [hn, and_self, if_true, ValCvt.nodeAdd, BState.size]
+  have : max (st.sizes.getD node 0) (st.sizes.getD node 0 + n) = st.sizes.getD node 0 + n := by omega
+  rw [this]; simp
 
 /-- the example graph is what the constructors build for `lb ≤ x0 + x1 ≤ ub` with the range type not accepted -/
 example : (build (fun n => n == 4 || n == 5)
